@@ -54,7 +54,8 @@ def acyclification(
         bidirected_G.add_nodes_from(G.nodes)
 
     # first detect all strongly connected components
-    scomps = nx.strongly_connected_components(directed_G)
+    scomps = list(nx.strongly_connected_components(directed_G))
+    scomp_of = {node: comp for comp in scomps for node in comp}
 
     # loop over all strongly connected components and their nodes
     for comp in scomps:
@@ -65,7 +66,7 @@ def acyclification(
         # in the strongly-connected component
         scomp_parents = set()
         scomp_c_components = set()
-        scomp_children = []
+        scomp_inner_edges = []
 
         for node in comp:
             # get any predecessors of SC
@@ -78,25 +79,28 @@ def acyclification(
             for nbr in bidirected_G.neighbors(node):
                 if nbr in comp:
                     continue
-                scomp_c_components.add(nbr)
+                # every node of the neighbor's strongly connected component gets connected
+                scomp_c_components.update(scomp_of[nbr])
 
-            # keep track of any edges pointing out of the SC
+            # keep track of the directed edges inside of the SC
             for child in directed_G.successors(node):
                 if child in comp:
-                    continue
-                scomp_children.append((node, child))
+                    scomp_inner_edges.append((node, child))
 
-        # first remove all nodes in the cycle
-        G.remove_nodes_from(comp)
+        # Everything above is read from the copies of the original graph and the edits
+        # below only touch edges with an endpoint inside this SC, so the result does not
+        # depend on the order in which the strongly connected components are processed.
+        # Edges pointing out of the SC stay (if they point into another SC, that SC
+        # connects the parent to all of its nodes).
 
-        # add them back in as a fully connected bidirected graph
+        # first remove all directed edges within the cycle
+        G.remove_edges_from(scomp_inner_edges, directed_edge_type)
+
+        # make the SC a fully connected bidirected graph
         bidirected_fc_G = nx.complete_graph(comp)
         if bidirected_edge_type not in G.edge_types:
             G.add_edge_type(nx.Graph(), bidirected_edge_type)
         G.add_edges_from(bidirected_fc_G.edges, bidirected_edge_type)
-
-        # add back the children
-        G.add_edges_from(scomp_children, directed_edge_type)
 
         # make all variables connect to the strongly connected component
         for node in comp:
